@@ -206,9 +206,15 @@ def gen_case(world, tier, prop):
     names = NAMES[fn] or ['x']
     r = rng.random()
     if r < 0.5:
-      return {'op': 'setattr', 'c': c, 'n': n,
-              'name': rng.choice(names + ['zz_unknown'] if rng.random() < 0.1 else names),
-              'v': value()}
+      op_ = {'op': 'setattr', 'c': c, 'n': n,
+             'name': rng.choice(names + ['zz_unknown'] if rng.random() < 0.1 else names),
+             'v': value()}
+      if isinstance(op_['v'], dict) and 'halfcopy' in op_['v'] and rng.random() < 0.7:
+        # a deep copy that must fail, the value is replaced, the deep copy again
+        pending.extend([{'op': 'deepcopy', 'c': c}, dict(op_, v=token()),
+                        {'op': 'deepcopy', 'c': c}])
+        fn_of.extend([fn_of[c], fn_of[c]])
+      return op_
     if r < 0.56:
       kw = [[nm, value()] for nm in rng.sample(names, min(len(names), rng.randint(1, 2)))]
       if rng.random() < 0.6:
